@@ -2,6 +2,28 @@
 
 package keeper
 
-import "time"
+import (
+	"time"
+
+	clienttypes "github.com/cosmos/ibc-go/v10/modules/core/02-client/types"
+
+	"github.com/cosmos/interchain-security/v7/x/ccv/provider/types"
+)
 
 func timeDuration(ns int64) time.Duration { return time.Duration(ns) }
+
+func vInitParams(connectionId string) types.ConsumerInitializationParameters {
+	return types.ConsumerInitializationParameters{
+		InitialHeight:                     clienttypes.Height{RevisionNumber: 0, RevisionHeight: 1},
+		GenesisHash:                       []byte{1},
+		BinaryHash:                        []byte{1},
+		SpawnTime:                         time.Time{},
+		UnbondingPeriod:                   1728000000000000,
+		CcvTimeoutPeriod:                  2419200000000000,
+		TransferTimeoutPeriod:             3600000000000,
+		ConsumerRedistributionFraction:    "0.75",
+		BlocksPerDistributionTransmission: 1000,
+		HistoricalEntries:                 10000,
+		ConnectionId:                      connectionId,
+	}
+}
